@@ -453,10 +453,18 @@ func (self *Analyzer) functionLiteral(node pAst.FunctionLiteralExpression) ast.A
 		node.Span(),
 		pAst.FN_MODIFIER_NONE,
 	)
+	// The literal's body is analyzed as a function of its own:
+	// afterwards, the enclosing function (and its loop nesting) is the current one again.
+	enclosingFunction := self.currentModule.CurrentFunction
+	enclosingLoopDepth := self.currentModule.LoopDepth
 	self.currentModule.CurrentFunction = &moduleFn
+	self.currentModule.LoopDepth = 0
 
 	// analyze body
 	analyzedBlock := self.block(node.Body, false)
+
+	self.currentModule.CurrentFunction = enclosingFunction
+	self.currentModule.LoopDepth = enclosingLoopDepth
 
 	// analyze return type
 	if err := self.TypeCheck(analyzedBlock.Type(), fnReturntype, TypeCheckOptions{
